@@ -1566,7 +1566,7 @@ class Collection(object):
                     # index is not hashable.
                     if index in indexed_list:
                         documents_gen.throw(
-                            DuplicateKeyError('E11000 Duplicate Key Error', 11000), None, err)
+                            DuplicateKeyError('E11000 Duplicate Key Error', 11000), None, None)
                     indexed_list.append(index)
 
         self._store.create_index(index_name, index_dict)
